@@ -18,7 +18,7 @@ import (
 // drivers with ordinary traffic and with termination causes.
 
 type TOp struct {
-	Op      string `json:"op"` // send|sendname|sendalias|call|inspect|sendafter|log|exit|parentexit|kill|err|normal|panic|metastop
+	Op      string `json:"op"` // send|sendname|sendalias|call|inspect|sendafter|log|callout|exit|parentexit|kill|err|normal|panic|metastop
 	Prio    int    `json:"prio,omitempty"`
 	DelayMs int    `json:"delay_ms,omitempty"`
 }
@@ -36,11 +36,15 @@ type TCase struct {
 	InitSelf int       `json:"init_self"`
 	Drivers  []TDriver `json:"drivers"`
 	NodeStop bool      `json:"node_stop"` // graceful node stop at the end instead of a forced one
+	// MetaEarly: messages the owner sends to its meta-process right after SpawnMeta returned (before the
+	// meta-process's Start goroutine is necessarily running)
+	MetaEarly int `json:"meta_early,omitempty"`
 }
 
 type tMsg struct {
-	ID int
-	Do string // "" | err | normal | panic
+	ID    int
+	Do    string // "" | err | normal | panic | callout
+	Delay int
 }
 
 var terminatingOps = map[string]bool{"exit": true, "parentexit": true, "kill": true, "err": true, "normal": true, "panic": true, "metastop": true}
@@ -63,6 +67,20 @@ func genTCase(r *simkit.Rand, tier string, causes bool) *TCase {
 	if c.Logger {
 		traffic = append(traffic, "log", "log")
 	}
+	if c.Kind != "meta" && r.Chance(0.5) {
+		// the target's handler makes a synchronous request itself (it is then in the
+		// wait-response state while other traffic and termination causes arrive)
+		traffic = append(traffic, "callout", "callout")
+	}
+	if c.Kind == "meta" {
+		c.MetaEarly = simkit.Pick(r, 0, 0, 1, 2, 3)
+	}
+	if r.Chance(0.4) {
+		// small cases: two drivers with one or two operations each leave few interleavings,
+		// every one of which is then likely to be visited
+		nd, maxOps = 2, 2
+		c.SelfSend, c.InitSelf, c.Logger = 0, 0, false
+	}
 	for i := 0; i < nd; i++ {
 		d := TDriver{Actor: r.Chance(0.6)}
 		for j, n := 0, r.Range(1, maxOps); j < n; j++ {
@@ -76,6 +94,9 @@ func genTCase(r *simkit.Rand, tier string, causes bool) *TCase {
 			}
 			if op.Op == "sendafter" {
 				op.DelayMs = simkit.Pick(r, 0, 1, 5, 20)
+			}
+			if op.Op == "callout" {
+				op.DelayMs = simkit.Pick(r, 0, 0, 1, 5, -1) // -1: the helper never answers, the request times out
 			}
 			d.Ops = append(d.Ops, op)
 		}
@@ -140,6 +161,7 @@ func shrinkTCase(c *TCase) []any {
 
 // tRun is the state of one run of the shared workload.
 type tRun struct {
+	helper gen.PID
 	prop string
 	e    *simkit.Env
 	c    *TCase
@@ -227,6 +249,12 @@ func (t *tRun) handle(self gen.Process, m any) error {
 		self.Send(self.PID(), tMsg{ID: -1})
 	}
 	switch tm.Do {
+	case "callout":
+		if self != nil {
+			_, err := self.CallWithTimeout(t.helper, tm.Delay, 1)
+			t.e.Logf("target callout %d -> %v", tm.ID, err)
+			t.e.Probe("target-made-a-request")
+		}
 	case "err":
 		return fmt.Errorf("boom%d", tm.ID)
 	case "normal":
@@ -288,6 +316,9 @@ func (t *tRun) spawnTarget() bool {
 						t.unexpected("SpawnMeta inside a running callback: " + err.Error())
 					}
 					t.metaID = id
+					for i := 0; i < c.MetaEarly; i++ {
+						p.Send(id, tMsg{ID: -3})
+					}
 				}
 				return nil
 			}
@@ -524,6 +555,11 @@ func (t *tRun) doOp(who string, id int, op TOp, p *Probe) {
 		}
 	case "sendafter":
 		_, err = p.SendAfter(dst, tMsg{ID: id}, time.Duration(op.DelayMs)*time.Millisecond)
+	case "callout":
+		if t.c.Kind == "pool" && prio == gen.MessagePriorityNormal {
+			prio = gen.MessagePriorityHigh // normal-priority traffic goes to the workers
+		}
+		err = send(dst, tMsg{ID: id, Do: "callout", Delay: op.DelayMs})
 	case "log":
 		n.Log().Warning("log line %d", id)
 	case "err", "normal", "panic":
@@ -609,6 +645,26 @@ func runTarget(prop string, e *simkit.Env, c *TCase) *tRun {
 		return nil
 	}
 	t := &tRun{prop: prop, e: e, c: c, n: n, issued: map[string]int{}}
+	{
+		// helper that answers the target's own requests after a delay, or never
+		hh := &Hooks{Name: "helper", Env: e}
+		hh.Call = func(p *Probe, from gen.PID, ref gen.Ref, req any) (any, error) {
+			d, _ := req.(int)
+			if d < 0 {
+				return nil, nil // no reply: the caller's request times out
+			}
+			if d > 0 {
+				e.Sleep(time.Duration(d) * time.Millisecond)
+			}
+			return "pong", nil
+		}
+		hp, err := n.Spawn(ProbeFactory(hh), gen.ProcessOptions{})
+		if err != nil {
+			e.Infra("spawn helper: " + err.Error())
+			return nil
+		}
+		t.helper = hp
+	}
 	if !t.spawnTarget() || !t.spawnObservers() {
 		simkit.StopNode(e, n, false, 0)
 		return nil
